@@ -559,6 +559,8 @@ class _NE:
     def effect(self, st, state):
         """state after a simple statement"""
         for n in ast.walk(st):
+            if isinstance(n, ast.Call) and isinstance(n.func, ast.Attribute) and isinstance(n.func.value, ast.Name) and n.func.value.id == "self" and n.func.attr in getattr(self, "establishes", ()):
+                state = True  # a method whose every normal exit leaves the free list non-empty (summary computed by F0)
             if isinstance(n, ast.Call) and isinstance(n.func, ast.Attribute) and _is_self_chunks(n.func.value):
                 if n.func.attr in ("append", "insert"):
                     state = True
@@ -599,6 +601,16 @@ class _NE:
                 if a is None and b is None:
                     return None
                 state = (a if b is None else b if a is None else (a and b))
+            elif isinstance(st, ast.While) and isinstance(st.test, ast.Constant) and st.test.value is True and not st.orelse:
+                # `while True:` is left through `break` only: the state after it is the one at the breaks.  The body is
+                # analysed from the weakest entry state (first iteration: `state`; later ones: whatever an iteration leaves)
+                self.breaks = getattr(self, "breaks", [])
+                self.breaks.append([])
+                out = self.block(st.body, False if state is None else state and False)
+                bs = self.breaks.pop()
+                if not bs:
+                    return None  # never falls through
+                state = all(bs)
             elif isinstance(st, (ast.For, ast.While)):
                 self.expr_uses(st.iter if isinstance(st, ast.For) else st.test, state)
                 # a local list that is only appended to inside the loop stays non-empty
@@ -623,6 +635,8 @@ class _NE:
             else:
                 self.expr_uses(st, state)
                 state = self.effect(st, state)
+                if isinstance(st, ast.Break) and getattr(self, "breaks", None):
+                    self.breaks[-1].append(bool(state))
                 if isinstance(st, (ast.Return, ast.Raise, ast.Continue, ast.Break)):
                     return None
         return state
@@ -641,12 +655,21 @@ def f0(cx):
     cx.note(cls, construct="self.chunks may be empty at method entry" if has_remover else "self.chunks has no remover",
             detail="allocate removes exhausted chunks, so a completely full buffer has an empty free list")
     total = 0
+    # summary: which methods leave the free list non-empty on every normal exit, whatever it was at entry
+    establishes = set()
+    for name in ("grow",):
+        if name in meths:
+            fn0 = meths[name]
+            an0 = _NE(cx, fn0, Lin(Defs(fn0).resolver()), Flow(fn0))
+            if an0.block(fn0.body, False) is True and not any(isinstance(x, ast.Return) for x in own_nodes(fn0)):
+                establishes.add(name)
     for name in ("free", "grow", "allocate", "get_free"):
         cx.need(name in meths, f"XBuffer.{name} not found")
         fn = meths[name]
         lin = Lin(Defs(fn).resolver())
         fl = Flow(fn)
         an = _NE(cx, fn, lin, fl)
+        an.establishes = establishes
         an.block(fn.body, not has_remover)
         for node, ok in an.uses:
             total += 1
